@@ -6,6 +6,7 @@ for seed in "$@"; do
   for i in 01 02 03 04 05 06 07 08 09 10 11 12 13 14 15 16 17 18 19 20; do
     out=$(VERIF_SEED=$seed PYTHONHASHSEED=random ./check C$i --tier "$tier" 2>&1); rc=$?
     echo "seed=$seed C$i rc=$rc $(echo "$out" | tail -1 | cut -c1-160)"
-    [ $rc -ne 0 ] && echo "$out" | grep -E "VIOLATION|INCONCLUSIVE|mechanism" | cut -c1-400
+    if [ $rc -ne 0 ]; then echo "$out" | grep -E "VIOLATION|INCONCLUSIVE|mechanism" | cut -c1-400; fi
   done
 done
+exit 0
